@@ -36,16 +36,24 @@ class Scn:
     def init(self):
         return self.op(op="init")
 
-    def await_exec(self, base=None, kind=None, n=1):
+    def await_exec(self, base=None, kind=None, n=1, since=None):
+        o = dict(op="until", actor="sup", ev="Exec", n=n)
         if kind == "rt":
-            return self.op(op="until", actor="sup", ev="Exec", key="kind", val="rt", n=n)
-        return self.op(op="until", actor="sup", ev="Exec", key="base", val=base, n=n)
+            o.update(key="kind", val="rt")
+        else:
+            o.update(key="base", val=base)
+        if since:
+            o["since"] = since
+        self.ops.append(o)
+        return self
 
     def sleep(self, ms):
         return self.op(op="sleep", ms=ms)
 
-    def mark(self, name):
-        return self.op(op="mark", name=name)
+    def mark(self, name=None):
+        name = name or self.tag("m")
+        self.op(op="mark", name=name)
+        return name
 
     # -- calls -----------------------------------------------------------
     def call(self, who, api, async_=False, tag=None, **kw):
@@ -147,3 +155,31 @@ class Scn:
             tags[w] = self.poll(w)
         self.wait(it)
         return it
+
+    def recover(self, subs, internal=None, body="recovered", **invkw):
+        """an invocation served by a freshly started environment (inline init): every extension is launched
+        and registers again, the runtime is launched and polls, the invocation completes"""
+        internal = internal or {}
+        m = self.mark()
+        it = self.invoke(size=6, seed=4242 + self.ninv, **invkw)
+        for name in subs:
+            self.await_exec(base=name, since=m)
+            self.register("ext:" + name, subs[name])
+        self.await_exec(kind="rt", since=m)
+        for name, evs in internal.items():
+            self.register("int:" + name, evs)
+        tags = {}
+        for name in subs:
+            tags["ext:" + name] = self.poll("ext:" + name)
+        for name in internal:
+            tags["int:" + name] = self.poll("int:" + name)
+        tags["rt"] = self.call("rt", "next", async_=True)
+        self.wait(tags["rt"])
+        listeners = ["ext:" + n for n in subs if "INVOKE" in subs[n]] + ["int:" + n for n in internal if "INVOKE" in internal[n]]
+        for w in listeners:
+            self.wait(tags[w])
+        self.call("rt", "response", id="current", body=body)
+        for w in ["rt"] + listeners:
+            tags[w] = self.poll(w)
+        self.wait(it)
+        return tags
